@@ -320,7 +320,7 @@ fn rank_mod_p(r: Ring, a: &M, n: usize) -> usize {
 
 // ---- entries ----
 #[derive(Clone, Copy, PartialEq)]
-enum Mag { Tiny, Small, Mid, Big }
+enum Mag { Tiny, Small, Mid, Big(usize, usize) }   // Big(lo, hi): lo..=hi decimal digits
 
 fn rand_int(r: &mut Rng, mag: Mag) -> BigInt {
     match mag {
@@ -334,9 +334,9 @@ fn rand_int(r: &mut Rng, mag: Mag) -> BigInt {
             2 => BigInt::from(if r.bool() { 1i64 << 30 } else { -(1i64 << 30) }) + r.range(-2, 2),
             _ => BigInt::from(r.range(-(1i64 << 31), 1i64 << 31)),
         },
-        Mag::Big => {
+        Mag::Big(lo, hi) => {
             if r.chance(1, 8) { return BigInt::from(r.range(-9, 9)); }
-            let digits = 100 + r.below(201) as usize;
+            let digits = lo + r.below((hi - lo + 1) as u64) as usize;
             let mut s = String::with_capacity(digits + 1);
             if r.bool() { s.push('-'); }
             s.push((b'1' + r.below(9) as u8) as char);
@@ -349,7 +349,7 @@ fn rand_elem(r: &mut Rng, ring: Ring, mag: Mag) -> BB {
     match ring {
         Ring::Z => (rand_int(r, mag), BigInt::zero()),
         _ => {
-            if mag != Mag::Big && r.chance(1, 10) {
+            if !matches!(mag, Mag::Big(..)) && r.chance(1, 10) {
                 // a unit or a rational / purely "imaginary" element: the boundary of normalizing_unit
                 let u = units(ring);
                 let k = rand_int(r, mag);
@@ -385,7 +385,7 @@ fn scramble(r: &mut Rng, ring: Ring, a: &mut M, steps: usize, mag: Mag) {
                 let i = r.below(m as u64) as usize;
                 let mut j = r.below(m as u64) as usize;
                 if i == j { j = (j + 1) % m; }
-                let c = rand_elem(r, ring, if mag == Mag::Big { Mag::Small } else { Mag::Tiny });
+                let c = rand_elem(r, ring, if matches!(mag, Mag::Big(..)) { Mag::Small } else { Mag::Tiny });
                 let add: Vec<BB> = a[i].iter().map(|x| rmul(ring, x, &c)).collect();
                 for (x, y) in a[j].iter_mut().zip(add.iter()) { *x = radd(x, y); }
             }
@@ -408,7 +408,7 @@ fn gen_any(r: &mut Rng, ring: Ring, m: usize, n: usize, mag: Mag) -> (M, &'stati
         2 | 3 => {
             // low rank product
             let rk = if m.min(n) == 0 { 0 } else { r.below(m.min(n) as u64) as usize };
-            let fm = if mag == Mag::Big { Mag::Big } else { Mag::Small };
+            let fm = if matches!(mag, Mag::Big(..)) { mag } else { Mag::Small };
             let x = rand_mat(r, ring, m, rk, Mag::Small);
             let y = rand_mat(r, ring, rk, n, fm);
             (mmul(ring, &x, &y, n), "lowrank")
@@ -525,12 +525,13 @@ fn main() {
             std::process::exit(0);
         }
         Mode::Gen { seed, thorough, out } => {
-            let mut o = Out::new(&out);
+            let o = Out::new(&out);
             let mut r = Rng::new(seed);
-            let emit = |o: &mut Out, c: String| {
-                let res = guarded(|| run_case(&c)).unwrap_or("TOP-PANIC".into());
-                o.case(&c, &res);
-            };
+            // cases are collected first and run in a shuffled order (balances the model's shards)
+            let mut all: Vec<String> = vec![];
+            let emit = |o: &mut Vec<String>, c: String| o.push(c);
+            let mut outp = o;
+            let mut o = std::mem::take(&mut all);
             let rings = [Ring::Z, Ring::G, Ring::E];
             let ind_tag = |ring: Ring, a: &M, m: usize, n: usize| -> &'static str {
                 if m <= n && rank_mod_p(ring, a, n) == m { "ind1" } else { "ind0" }
@@ -624,21 +625,47 @@ fn main() {
                     emit(&mut o, case_line("lll", ring, m, n, "1", &tag, &a));
                 }
             }
-            // 5. entries of 100-300 digits (the model's arithmetic is slow there: few, small shapes)
-            let nbig = if thorough { 60 } else { 6 };
-            for ring in rings {
-                for k in 0..nbig {
-                    let lim = if thorough { 4 } else { 3 };
-                    let m = 1 + r.below(lim) as usize;
-                    let n = 1 + r.below(lim) as usize;
-                    let (a, fam) = gen_any(&mut r, ring, m, n, Mag::Big);
-                    let f = HNF_FLAGS[k % 4];
-                    emit(&mut o, case_line("hnf", ring, m, n, f, &format!("big-{}:na", fam), &a));
-                    let m2 = 1 + r.below(lim.min(3)) as usize;
-                    let n2 = m2 + r.below(2) as usize;
-                    let (b, fam) = gen_indep(&mut r, ring, m2, n2, Mag::Big);
-                    let tag = format!("big-{}:{}", fam, ind_tag(ring, &b, m2, n2));
-                    emit(&mut o, case_line("lll", ring, m2, n2, LLL_FLAGS[k % 2], &tag, &b));
+            // 5. entries beyond every machine width.  The extracted model's arithmetic is quadratic in the
+            //    operand size and the Gram data are far larger than the entries, so these cases are few and small.
+            //    (alg, m, n, digits lo..hi, rings, count quick, count thorough)
+            let z_only = [Ring::Z];
+            let big_plan: Vec<(&str, usize, usize, (usize, usize), &[Ring], usize, usize)> = vec![
+                ("hnf", 1, 1, (100, 300), &rings, 2, 8),
+                ("hnf", 1, 2, (100, 300), &rings, 2, 8),
+                ("hnf", 2, 1, (100, 300), &rings, 1, 6),
+                ("hnf", 1, 3, (100, 200), &rings, 1, 4),
+                ("hnf", 2, 2, (100, 120), &z_only, 1, 6),
+                ("hnf", 2, 2, (100, 300), &rings, 0, 2),
+                ("hnf", 2, 2, (40, 60), &rings, 2, 8),
+                ("hnf", 2, 3, (40, 60), &rings, 1, 6),
+                ("hnf", 3, 2, (40, 45), &z_only, 1, 4),
+                ("hnf", 3, 3, (40, 50), &z_only, 1, 4),
+                ("hnf", 3, 3, (100, 110), &z_only, 0, 2),
+                ("hnf", 4, 4, (40, 42), &z_only, 0, 2),
+                ("lll", 1, 1, (100, 300), &rings, 1, 4),
+                ("lll", 1, 2, (100, 300), &rings, 1, 6),
+                ("lll", 2, 2, (100, 300), &rings, 1, 6),
+                ("lll", 2, 3, (100, 200), &z_only, 1, 4),
+                ("lll", 2, 2, (40, 60), &rings, 2, 8),
+                ("lll", 2, 3, (40, 60), &rings, 1, 6),
+                ("lll", 3, 3, (40, 60), &rings, 1, 6),
+                ("lll", 3, 4, (100, 200), &z_only, 0, 3),
+                ("lll", 4, 4, (40, 60), &z_only, 0, 3),
+            ];
+            let mut kf = 0usize;
+            for (alg, m, n, (lo, hi), rs, cq, ct) in big_plan {
+                for &ring in rs {
+                    for _ in 0..(if thorough { ct } else { cq }) {
+                        kf += 1;
+                        if alg == "hnf" {
+                            let (a, fam) = gen_any(&mut r, ring, m, n, Mag::Big(lo, hi));
+                            emit(&mut o, case_line("hnf", ring, m, n, HNF_FLAGS[kf % 4], &format!("big-{}:na", fam), &a));
+                        } else {
+                            let (b, fam) = gen_indep(&mut r, ring, m, n, Mag::Big(lo, hi));
+                            let tag = format!("big-{}:{}", fam, ind_tag(ring, &b, m, n));
+                            emit(&mut o, case_line("lll", ring, m, n, LLL_FLAGS[kf % 2], &tag, &b));
+                        }
+                    }
                 }
             }
             // 6. the repository's own examples
@@ -654,7 +681,16 @@ fn main() {
                 emit(&mut o, case_line("hnf", ring, 3, 3, "11", "repo:na", &q));
                 emit(&mut o, case_line("lll", ring, 3, 3, "1", &format!("repo:{}", ind_tag(ring, &q, 3, 3)), &q));
             }
-            o.finish();
+            let mut sh = Rng::new(seed ^ 0x5151);
+            for i in (1..o.len()).rev() {
+                let j = sh.below(i as u64 + 1) as usize;
+                o.swap(i, j);
+            }
+            for c in &o {
+                let res = guarded(|| run_case(c)).unwrap_or("TOP-PANIC".into());
+                outp.case(c, &res);
+            }
+            outp.finish();
             // abandoned (timed-out) worker threads must not keep the process alive
             std::process::exit(0);
         }
